@@ -309,5 +309,5 @@ def enum_masks(ctx):
 def parts(ctx):
     return [
         Part("masks-exhaustive", run_history, items=enum_masks, exhaustive=True),
-        Part("histories", run_history, strategy=history(), n={"quick": 1600, "thorough": 60000}),
+        Part("histories", run_history, strategy=history(), n={"quick": 6000, "thorough": 120000}),
     ]
